@@ -73,7 +73,7 @@ var requiredOverlaps = []string{"save|snapshot", "list|save", "readjob|save", "s
 func init() {
 	register(&Check{
 		ID: "C13", Level: "exploration", Race: true,
-		Rule:        "stress histories in a -race build (race detector implies checkptr): 3 schedulers, 2 cancelers, 3 readers (ReadJob, IterateJobs reading every field incl. task slices and variables, ListPipelines, the HTTP job list handler), 1 reloader, 1 saver with retention_count 1-3 so that saves delete jobs, the persist loop on a recording store, a real 2 ms start delay on one pipeline (timer callbacks), failing tasks (fail-fast cancel from the task callback), slow-to-stop tasks, optional random parking of scheduler loops, and a graceful or forced Shutdown overlapping the traffic. GORACE=halt_on_error=0 with log_path; report blocks are counted in the log files and de-duplicated by the pair of innermost prunner frames. Coverage is measured: the run is inconclusive unless every lock-conflicting pair of operations was observed in flight together at least 20 times. distinct_nontrivial counts distinct overlapping operation pairs plus offline-oracle situations; evaluations counts recorded events",
+		Rule:        "stress histories in a -race build (race detector implies checkptr): 3 schedulers, 2 cancelers, 3 readers (ReadJob, IterateJobs reading every field incl. task slices and variables, ListPipelines, the HTTP job list handler), 1 reloader, 1 saver with retention_count 1-3 so that saves delete jobs, the persist loop on a recording store, a real 2 ms start delay on one pipeline (timer callbacks), failing tasks (fail-fast cancel from the task callback), slow-to-stop tasks, optional random parking of scheduler loops, directed cases (forced shutdown against saves that remove jobs; the real FileOutputStore shared by the real task runners of concurrent jobs, saves that remove logs and a log reader, with a task whose log file cannot be created), and a graceful or forced Shutdown overlapping the traffic. GORACE=halt_on_error=0 with log_path; report blocks are counted in the log files and de-duplicated by the pair of innermost prunner frames. Coverage is measured: the run is inconclusive unless every lock-conflicting pair of operations was observed in flight together at least 20 times. distinct_nontrivial counts distinct overlapping operation pairs plus offline-oracle situations; evaluations counts recorded events",
 		Assumptions: []string{"the race detector only sees races on paths the workload reaches and only with the synchronisation it intercepts (all of it is Go-native here)"},
 		Cases:       func(t string) int { return tierN(t, 96, 1600) },
 		RunCase: func(c *CaseCtx) *CaseResult {
@@ -89,6 +89,10 @@ func init() {
 					last = r
 				}
 				return last
+			}
+			if c.Idx%12 == 4 {
+				// the real file output store under everything that uses it at once
+				return simpleCase(c, drv.RunOutputStoreRace(c.Seed, c.TmpDir), 0)
 			}
 			return stressCase(c, raceOpts(c.Idx), "C13")
 		},
